@@ -423,3 +423,16 @@ fn ieee_cmp_flip() {
     assert!((a == b) == (a.partial_cmp(&b) == Some(Ordering::Equal)), "K.ieee_cmp_flip: == agrees with partial_cmp");
     assert!((a < b) == (a.partial_cmp(&b) == Some(Ordering::Less)) && (a > b) == (a.partial_cmp(&b) == Some(Ordering::Greater)), "K.ieee_cmp_flip: < and > agree with partial_cmp");
 }
+
+/// K.ieee_classification: the classification axioms of ax_ieee_class in
+/// contracts/verus/prelude/floats.rs, for ALL f64 / all pairs (loop-free: complete).
+#[kani::proof]
+fn ieee_classification() {
+    let a: f64 = kani::any();
+    let b: f64 = kani::any();
+    assert!(a.is_finite() == (!a.is_nan() && !a.is_infinite()), "K.ieee_classification: finite <=> not NaN and not infinite");
+    assert!(!(a.is_nan() && a.is_infinite()), "K.ieee_classification: NaN is not infinite");
+    assert!(a.partial_cmp(&b).is_none() == (a.is_nan() || b.is_nan()), "K.ieee_classification: unordered <=> a NaN operand");
+    assert!(0.0f64.is_finite(), "K.ieee_classification: 0.0 is finite");
+}
+
